@@ -491,7 +491,10 @@ class Parser:
     def _concat_strings_in_constant(self, parts: list[TokenInfo]) -> ast.Constant:
         s = ast.literal_eval(parts[0].string)
         for ss in parts[1:]:
-            s += ast.literal_eval(ss.string)
+            value = ast.literal_eval(ss.string)
+            if isinstance(value, bytes) != isinstance(s, bytes):
+                self.raise_syntax_error_known_location("cannot mix bytes and nonbytes literals", ss)
+            s += value
         args = {
             "value": s,
             "lineno": parts[0].start[0],
@@ -537,6 +540,10 @@ class Parser:
             values.append(self._concat_strings_in_constant(ss))
 
         consolidated: list[Any] = []  # ast.Constant | ast.FormattedValue
+        if seen_joined or len(values) > 1:
+            for p in values:
+                if isinstance(p, ast.Constant) and isinstance(p.value, bytes):
+                    self.raise_syntax_error_known_location("cannot mix bytes and nonbytes literals", p)
         for p in values:
             if consolidated and isinstance(consolidated[-1], ast.Constant) and isinstance(p, ast.Constant):
                 consolidated[-1].value += p.value  # type: ignore[unreachable]
